@@ -953,7 +953,7 @@ def transform_seqkw(sf):
 
 # ---- duplicate arguments with keyword actuals (remove_duplicate_args_call: kwarguments filters)
 
-K_DD_KWADJ = 'dedup-nonadjacent-duplicate-keywords'     # KnownDedupKwAdj
+K_DD_KWADJ = 'dedup-nonadjacent-duplicate-keywords'     # fixed in /repo; kept for the record (no longer returned by the classifier)
 
 DEDUPKW_FORMS = {
     # name: (actual list of the call in `kernel`, value of kernel's own variable ke: 'n' | 'm' | 'm1')
@@ -1018,8 +1018,8 @@ def _kw_values(form):
 
 
 def known_dedup_kwadj(vals):
-    """Lean: KnownDedupKwAdj — two equal keyword values with a different value between them (itertools.groupby only merges
-    adjacent duplicates)"""
+    """two equal keyword values with a different value between them (the family of the repaired defect: itertools.groupby only
+    merged adjacent duplicates); used to describe generated forms only"""
     for p in range(len(vals)):
         for q in range(p + 2, len(vals)):
             if vals[p] == vals[q] and any(v != vals[p] for v in vals[p + 1:q]):
@@ -1028,7 +1028,9 @@ def known_dedup_kwadj(vals):
 
 
 def classes_dedupkw(spec):
-    return [K_DD_KWADJ] if known_dedup_kwadj(_kw_values(spec_get(spec, 'form'))) else []
+    """no open class: `dedup-nonadjacent-duplicate-keywords` (two equal keyword values with a different one between them, form
+    `kwnonadj`) was repaired in /repo (order-preserving de-duplication on the keyword value) and is now a positive case"""
+    return []
 
 
 def binding_problems(routine):
@@ -1256,7 +1258,7 @@ def real_src(kind, spec):
 K_DD_LEFT = 'dedup-removed-name-left-behind'      # KnownDedupLeft (replaces the narrower declaration-only class)
 K_DD_MULTI = 'dedup-second-caller-misaligned'     # KnownDedupMulti
 K_DD_SHAPE = 'dedup-differing-dummy-declarations' # KnownDedupShape
-ALL_CLASSES = [K_SEQ_RANK, K_SEQ_SHORT, K_SEQ_KW, K_DD_MULTI, K_DD_LEFT, K_DD_INTENT, K_DD_SHAPE, K_DD_KWADJ, K_SH_LB, K_SH_CAP, K_DT_LB, K_DT_CLASH,
+ALL_CLASSES = [K_SEQ_RANK, K_SEQ_SHORT, K_SEQ_KW, K_DD_MULTI, K_DD_LEFT, K_DD_INTENT, K_DD_SHAPE, K_SH_LB, K_SH_CAP, K_DT_LB, K_DT_CLASH,
                K_TB_PASS, K_TB_NOPASS]
 
 
@@ -1343,8 +1345,7 @@ def gen_src(rng):
     kind = rng.choice(['shape', 'shape', 'dtype', 'dtype', 'tbound', 'seqkw', 'dedupkw', 'dedupkw', 'dtarr', 'dtarr'])
     if kind == 'dedupkw':
         n = rng.randint(3, 4)
-        forms = [f for f in sorted(DEDUPKW_FORMS) if class_listed(K_DD_KWADJ) or not known_dedup_kwadj(_kw_values(f))]
-        return kind, mk_spec(form=rng.choice(forms), n=n, m=rng.randint(3, 5), twice=int(rng.random() < 0.25))
+        return kind, mk_spec(form=rng.choice(sorted(DEDUPKW_FORMS)), n=n, m=rng.randint(3, 5), twice=int(rng.random() < 0.25))
     if kind == 'dtarr':
         return kind, mk_spec(a=rng.randint(1, 2), b=rng.randint(1, 2), pat=rng.randint(0, 2 ** len(DTARR_STMTS) - 1),
                              n=rng.randint(1, 3), alld=int(rng.random() < 0.5))
